@@ -16,6 +16,38 @@ CHECKS = {
             "validation-strength over programs; the real TEAL is additionally executed against the source semantics.",
             "Trusted: Lean kernel, AVM spec (Avm/*.lean), source semantics (Src.lean), recipe builders; subroutines are covered by C02, options by C03.",
             "DESIGN.md Part II C01"),
+    "C02": ("exploration",
+            "Lean 4 theorem on the model of the recursion spill/restore code (all arities, slot sets, return kinds, dig/cover/uncover flavours) tied to the real function on an exhaustive grid; differential execution of real TEAL (AVM spec) against the source semantics with per-activation locals; families with independently computed verdicts",
+            "Call-graph programs (self/mutual recursion, by-value/by-reference parameters, none/uint64/bytes/ABI results, calls in operand position, "
+            "early Return) are compiled by the real compiler for versions 4..10 x frame_pointers x scratch_slots and executed on the Lean AVM "
+            "spec against the Lean source semantics on generated contexts; the spill/restore sequences are covered by a universal theorem.",
+            "Trusted: AVM frame rules (callsub/retsub/proto/frame_dig/frame_bury) and the source semantics of calls in Src.lean; whole-program "
+            "simulation for calls is not yet certificate-checked (C01's validator covers call-free routines).",
+            "DESIGN.md Part II C02"),
+    "C10": ("proof",
+            "Lean 4 proof: injectivity / requested-id / range / totality theorems on a model of assignScratchSlotsToSubroutines, correspondence on random and boundary slot layouts, marker programs executed on the AVM spec",
+            "Universal theorems (any number of slots, any routine layout, any iteration order of the slot set) about the model of slot "
+            "collection and assignment; the model is compared with the real functions on generated layouts every run and marker programs "
+            "(every variable written with a distinct marker, then read back) are compiled by the real compiler and executed.",
+            "Trusted: Lean kernel, object identity model of ScratchSlot (re-checked each run), AVM spec for the marker programs.",
+            "DESIGN.md Part II C10"),
+    "C13": ("proof",
+            "Lean 4 proof: round-trip theorems of the literal emitters against an independent TEAL literal grammar (all byte strings / integers), exhaustive single-byte and byte-pair correspondence with the real escapeStr/Bytes/Int/Addr/MethodSignature",
+            "For every byte string and integer the emitted token text decodes, under the independent grammar, to exactly the value written; the "
+            "model of the emitters is compared with the real constructors on all single bytes, byte pairs and random texts, and the real "
+            "emitted lines are decoded by the grammar and compared with Python's own decoding.",
+            "Trusted: TEAL literal grammar (Avm/Syntax.lean), RFC 4648 reading, byte-level model of CPython's unicode-escape (validated "
+            "exhaustively on 1- and 2-byte inputs); SHA-512/256 uninterpreted (selectors from algosdk). Two known findings (Addr checksum, "
+            "MethodSignature escaping).",
+            "DESIGN.md Part II C13"),
+    "C17": ("proof",
+            "Lean 4 proof: soundness and completeness of the model of validateSlots w.r.t. syntactic paths (all graphs, termination proved), equivalence with an independent dataflow; correspondence on random block graphs and on programs with an independently computed read-before-write verdict",
+            "validate_sound / validate_complete hold for every block graph; the model equals the real validateSlots on generated graphs "
+            "(same error list) and the real compiler rejects a generated program exactly when an independent path enumeration finds a "
+            "read-before-write path.",
+            "Trusted: Lean kernel; that the compiled block graph has the paths of the source program (covered by C01). One known finding "
+            "(dead load after return in the same block is reported).",
+            "DESIGN.md Part II C17"),
 }
 
 NOT_YET = "check not built yet (work in progress, see DESIGN.md section 10 build order)"
